@@ -178,6 +178,67 @@ def decodeFields : Nat → Nat → Bytes → Option (List Bytes)
 /-- a registered flat message: its four prefix bytes, then the fields from number 1 -/
 def encodeFlatMsg (pre : Bytes) (fields : List Bytes) : Bytes := pre ++ encodeFields 1 fields
 
+/-- a field of an amino struct as it travels: length-delimited bytes (addresses, strings, an `Int` as text, a nested
+struct or a registered key as its own encoding) or a varint (bool, enum, uint64, an int64 as its two's complement) -/
+inductive Fld where
+  | bytes (b : Bytes)
+  | uint (n : Nat)
+  deriving Repr, DecidableEq
+
+/-- one field: key ‖ payload; a zero value (empty bytes, 0) is omitted -/
+def encodeFld (num : Nat) : Fld → Bytes
+  | .bytes b => if b.isEmpty then [] else fieldKey num 2 ++ lenPrefixed b
+  | .uint n => if n = 0 then [] else fieldKey num 0 ++ uvarint n
+
+/-- the fields of a struct, numbered `num`, `num + 1`, … -/
+def encodeStruct : Nat → List Fld → Bytes
+  | _, [] => []
+  | num, f :: rest => encodeFld num f ++ encodeStruct (num + 1) rest
+
+/-- the decoder directed by the struct's shape (`true`: a bytes field, `false`: a varint field), field numbers below 16;
+an absent field reads as its zero value, an explicitly written zero value is not canonical and is refused -/
+def decodeStruct : Nat → List Bool → Bytes → Option (List Fld)
+  | _, [], [] => some []
+  | _, [], _ :: _ => none
+  | num, true :: ks, [] => (decodeStruct (num + 1) ks []).map (Fld.bytes [] :: ·)
+  | num, false :: ks, [] => (decodeStruct (num + 1) ks []).map (Fld.uint 0 :: ·)
+  | num, true :: ks, k :: r =>
+    if k = num * 8 + 2 then
+      match decodeLenPrefixed r with
+      | some (b, rest) => if b.isEmpty then none else (decodeStruct (num + 1) ks rest).map (Fld.bytes b :: ·)
+      | none => none
+    else (decodeStruct (num + 1) ks (k :: r)).map (Fld.bytes [] :: ·)
+  | num, false :: ks, k :: r =>
+    if k = num * 8 then
+      match decodeUvarint r with
+      | some (n, rest) => if n = 0 then none else (decodeStruct (num + 1) ks rest).map (Fld.uint n :: ·)
+      | none => none
+    else (decodeStruct (num + 1) ks (k :: r)).map (Fld.uint 0 :: ·)
+
+def Fld.kind : Fld → Bool
+  | .bytes _ => true
+  | .uint _ => false
+
+/-- amino's `time.Time`: a struct of seconds (int64) and nanoseconds -/
+def encodeTime (secs : Int) (nanos : Nat) : Bytes := encodeStruct 1 [.uint (toU64 secs), .uint nanos]
+
+/-- a validator record of x/pos as stored (`types.Validator`); `pk` is the registered key's own encoding -/
+structure ValidatorRec where
+  addr : Bytes
+  pk : Bytes
+  jailed : Bool
+  status : Nat
+  tokens : Int
+  secs : Int
+  nanos : Nat
+  deriving Repr, DecidableEq
+
+def validatorFields (v : ValidatorRec) : List Fld :=
+  [.bytes v.addr, .bytes v.pk, .uint (if v.jailed then 1 else 0), .uint v.status, .bytes (intText v.tokens),
+   .bytes (encodeTime v.secs v.nanos)]
+
+def encodeValidator (v : ValidatorRec) : Bytes := encodeStruct 1 (validatorFields v)
+
 /-! ### store keys of x/pos -/
 
 /-- 8-byte big-endian -/
